@@ -225,7 +225,8 @@ def parseDim (attrs : List (Str × AVal)) : Res Unit :=
     | some (.text s toks _) =>
       if s = "..".toList then .ok ()
       else match dimensionShape (4 * toks.length + 8) toks with
-        | .ok _ => .ok ()
+        | .ok (_, []) => .ok ()
+        | .ok (_, _ :: _) => .reject "dimension:unable-to-parse"     -- `mustbe("EOF")`: nothing may follow the shape
         | .reject _ => .reject "dimension:unable-to-parse"
         | .crash e => .crash e
         | .fuel => .crash "fuel"
@@ -260,7 +261,8 @@ def checkImpliedOne (names : List (Option Str)) (attrs : List (Str × AVal)) : R
     match get "implied" attrs with
     | some (.text _ toks _) =>
       match expression (4 * toks.length + 8) 0 toks with
-      | .ok (e, _) => checkImpliedExpr names e
+      | .ok (e, []) => checkImpliedExpr names e
+      | .ok (_, _ :: _) => .reject "implied:parse-error"              -- `mustbe("EOF")`
       | .reject _ => .reject "implied:parse-error"
       | .crash e => .crash e
       | .fuel => .crash "fuel"
